@@ -5,7 +5,7 @@ namespace AwsVerif.Threads
 /-- what a step of thread `t` can do to the record of another thread `k` -/
 def OtherRel (s : State) (k : Nat) (a b : Th) : Prop :=
   b = a ∨ b = { a with woken := true } ∨
-  (a.status = .notCreated ∧ b = { status := .created, ord := s.nextOrd, wFunc := k, wArg := k }) ∨
+  (a.status = .notCreated ∧ ∃ nm, b = { status := .created, ord := s.nextOrd, wFunc := k, wArg := k, named := nm }) ∨
   (a.status = .exited ∧ b = { a with status := .joined })
 
 theorem exec_other (P : Prog) (s s' : State) (t : Nat) (i : Instr) (rest : List Instr)
@@ -109,7 +109,8 @@ theorem step_cases (P : Prog) (s s' : State) (t : Nat) (h : step P s t = some s'
     · exact Or.inr (Or.inr (Or.inr (Or.inr (Or.inr ⟨Or.inr (Or.inr rfl), _, _, rfl, h⟩))))
 
 @[simp] theorem startStep_th (P : Prog) (s : State) (t : Nat) : (startStep P s t).th =
-    upd s.th t { s.th t with status := .running, code := (P.body (s.th t).wFunc).map Instr.act } := rfl
+    upd s.th t { s.th t with status := .running, code := (P.body (s.th t).wFunc).map Instr.act,
+                             copyId := some t, named := false } := rfl
 @[simp] theorem startStep_log (P : Prog) (s : State) (t : Nat) :
     (startStep P s t).log = .run t (s.th t).wArg :: s.log := rfl
 theorem atexitStep_nil (P : Prog) (s : State) (t : Nat) (hc : (s.th t).chain = []) : atexitStep P s t =
